@@ -93,7 +93,7 @@ def isRenewSecret (h : Bytes → Bytes) (s : Schema) (stored : Lease) (candidate
   | .v2 => stored.renew == h candidate
 
 /-! ### immutable container: lease functions (storage/immutable.py ShareFile) -/
-namespace Imm
+namespace ImmL
 
 /-- `schema_from_version(struct.unpack(">L", header[:4]))` -/
 def schemaOf (f : File) : Option Schema :=
@@ -105,7 +105,7 @@ def numLeases (f : File) : Nat := unpackBE (pread f 8 4)
 
 /-- `ShareFile.__init__` (open existing): `_lease_offset = filesize - num_leases * LEASE_SIZE`.
     (Python's value is negative for a corrupt short file; `Nat` subtraction gives 0 — excluded by
-    the container invariant `Imm.WF`.) -/
+    the container invariant `ImmL.WF`.) -/
 def leaseOffset (f : File) : Nat := f.length - numLeases f * 72
 
 /-- `ShareFile._schema.header(max_size)` followed by `max_size` bytes of share data `data`
@@ -114,7 +114,7 @@ def fresh (version : Nat) (data : Bytes) : File :=
   packU32 version ++ packU32 (min (2 ^ 32 - 1) data.length) ++ packU32 0 ++ data
 
 /-- `ShareFile.get_leases` (the records, in order, in stored form).  Python reads 72 bytes at a time
-    from `_lease_offset`; an empty read is skipped (cannot happen under `Imm.WF`). -/
+    from `_lease_offset`; an empty read is skipped (cannot happen under `ImmL.WF`). -/
 def getLeases (f : File) : List Lease :=
   (List.range (numLeases f)).filterMap fun i =>
     let d := pread f (leaseOffset f + i * 72) 72
@@ -162,5 +162,5 @@ def addOrRenew (h : Bytes → Bytes) (f : File) (avail : Nat) (li : Lease) : Fil
 def WF (f : File) : Prop :=
   (schemaOf f).isSome ∧ 12 + numLeases f * 72 ≤ f.length
 
-end Imm
+end ImmL
 end Tahoe.Storage
